@@ -417,7 +417,7 @@ def job_cli(job):
 
         p = subprocess.Popen(cmd, stdout=subprocess.PIPE, stderr=subprocess.PIPE, text=True, env=dict(os.environ), start_new_session=True)
         try:
-            out, err = p.communicate(timeout=240)
+            out, err = p.communicate(timeout=900)
         except subprocess.TimeoutExpired:
             try:
                 os.killpg(p.pid, signal.SIGKILL)  # the whole process group: pool workers and manager too
@@ -438,7 +438,7 @@ def job_cli(job):
         recs = stddata.records(out)
         hdr = [l for l in stddata.header(out) if not l.startswith("##fileDate") and not l.startswith("##commandline")]
         if rc == "timeout":
-            r.violation(tag + "|no-exit", "the process did not exit within 240 s (%d records written)" % len(recs), payload)
+            r.violation(tag + "|no-exit", "the process did not exit within 900 s (%d records written)" % len(recs), payload)
             continue
         if mode == "fail":
             if rc == 0:
